@@ -2852,7 +2852,7 @@ Box<ITV>::propagate_constraint_no_check(const Constraint& c) {
           if (x_i.lower_is_open()) {
             open = T_YES;
           }
-          r = sub_mul_assign_r(t_bound, t_a, t_x, ROUND_UP);
+          r = sub_mul_assign_r(t_bound, t_a, t_x, ROUND_DOWN);
           if (propagate_constraint_check_result(r, open)) {
             goto maybe_refine_upper_2;
           }
